@@ -77,6 +77,13 @@ Theorem C07_width_option_grammar : forall s w, parse_width s = Some w ->
 Proof. exact parse_width_spec. Qed.
 Print Assumptions C07_width_option_grammar.
 
+(* -d: every argument that is well-formed UTF-8 (Table 3-7) is accepted and denotes exactly
+   its code points, in order (re-encoding them gives the argument back) *)
+Theorem C07_delims_option_grammar : forall dstr, WF dstr ->
+  exists ds, parse_delims dstr = Some ds /\ utf8_of_cps ds = dstr.
+Proof. exact wf_roundtrip. Qed.
+Print Assumptions C07_delims_option_grammar.
+
 Example C07_nonvacuous_width_option :
   parse_width [50; 49; 52; 55; 52; 56; 51; 54; 52; 56] = Some 2147483648 /\ parse_width [45; 49] = None /\
   parse_width [] = None /\ parse_width [53; 120] = None /\
